@@ -10,6 +10,7 @@ import (
 	"github.com/cbeuw/Cloak/internal/server/usermanager"
 	"github.com/cbeuw/Cloak/internal/vnet"
 	"github.com/cbeuw/Cloak/internal/vrt"
+	"github.com/cbeuw/Cloak/internal/vrt/sync"
 	"github.com/cbeuw/Cloak/internal/vrt/time"
 	"github.com/cbeuw/Cloak/internal/vx"
 )
@@ -121,6 +122,64 @@ func init() {
 					vrt.Fail("charged-exactly-once", "upload round %d was %s; user 1 sent more than its credit of 500 bytes (%d on the wire) but the stored credit is still %d", fm.at, fault, vol(1), u1.upCredit)
 				}
 				vrt.Observe("calls=%d", fm.calls)
+			},
+		}
+		return vx.RunSched(c, sc, nil)
+	}})
+}
+
+// C07 driver: "a UID the server currently authorises" - once an administrator's change (credit to 0,
+// expiry in the past, deletion) has been committed, no later first connection of that UID is treated
+// as a client, however the change overlapped earlier lookups of the same user.
+func init() {
+	vx.Register(&vx.Scenario{Name: "panel.staleauth", Prop: "C07", Run: func(c *vx.Ctx) *vx.Report {
+		change := c.P("change", "credit0")
+		sc := &vrt.Scenario{
+			Opt:      vrt.Options{Delay: c.P("delay", "0") == "1", HorizonNs: int64(100 * time.Second)},
+			Classify: deadlockIs("no-deadlock"),
+			Main: func() {
+				base := freshBoltManager()
+				mgr := newEvManager(base)
+				now := time.Now().Unix()
+				base.WriteUserInfo(usermanager.UserInfo{UID: uidOf(0), SessionsCap: i32(5), UpRate: i64(1 << 30), DownRate: i64(1 << 30), UpCredit: i64(1000), DownCredit: i64(1000), ExpiryTime: i64(now + 86400)})
+				panel := &userPanel{Manager: mgr, activeUsers: map[[16]byte]*ActiveUser{}, usageUpdateQueue: map[[16]byte]*usagePair{}}
+				admit := func(sid uint32) (*ActiveUser, error) {
+					user, err := panel.GetUser(uidOf(0))
+					if err != nil {
+						return nil, err
+					}
+					if _, _, err := user.GetSession(sid, plainSeshConfig()); err != nil {
+						user.CloseSession(sid, "")
+						return nil, err
+					}
+					return user, nil
+				}
+				var wg sync.WaitGroup
+				var first *ActiveUser
+				wg.Add(2)
+				vrt.Go("earlier-connection", func() {
+					defer wg.Done()
+					first, _ = admit(1)
+				})
+				vrt.Go("admin", func() {
+					defer wg.Done()
+					switch change {
+					case "credit0":
+						mgr.WriteUserInfo(usermanager.UserInfo{UID: uidOf(0), UpCredit: i64(0)})
+					case "expire":
+						mgr.WriteUserInfo(usermanager.UserInfo{UID: uidOf(0), ExpiryTime: i64(now - 10)})
+					case "delete":
+						mgr.DeleteUser(uidOf(0))
+					}
+				})
+				wg.Wait()
+				if first != nil {
+					first.CloseSession(1, "") // the earlier connection goes away: the user is no longer active
+				}
+				if _, err := admit(2); err == nil {
+					vrt.Fail("only-authorised-clients-answered", "the administrator's change (%s) was committed before this connection arrived, and the user had no session left: it was admitted all the same", change)
+				}
+				vrt.Observe("first=%v", first != nil)
 			},
 		}
 		return vx.RunSched(c, sc, nil)
